@@ -87,6 +87,8 @@ type Run struct {
 	samples []string
 	extra   map[string]any
 	traces  int
+	// AutoClass: stateless protocols — each distinct op line is a case; non-trivial iff not an error
+	AutoClass bool
 }
 
 func envOr(k, d string) string {
@@ -135,6 +137,9 @@ func (r *Run) Emit(op, obs string) {
 	r.obs.WriteString(obs)
 	r.obs.WriteByte('\n')
 	r.nOps++
+	if r.AutoClass {
+		r.Class(op, obs != "err" && obs != "bad-op")
+	}
 	if len(r.samples) < 3 || (r.nOps%997 == 0 && len(r.samples) < 8) {
 		r.samples = append(r.samples, op+"  =>  "+obs)
 	}
@@ -178,7 +183,7 @@ func (r *Run) Close() {
 			best[v.Signature] = v
 		}
 	}
-	var vs []Violation
+	vs := []Violation{}
 	for _, v := range best {
 		vs = append(vs, v)
 	}
